@@ -321,7 +321,7 @@ class Ctx:
             "assumptions": self.assumptions, "wall_s": round(wall, 2),
             "violations": len(self.violations),
         }
-        if not self.replay:
+        if not self.replay and not os.environ.get("VERIF_NOEVIDENCE"):
             os.makedirs(os.path.join(VERIF, "evidence"), exist_ok=True)
             tmp = os.path.join(VERIF, "evidence", ".%s.tmp" % self.prop)
             json.dump(ev, open(tmp, "w"), indent=1, default=str)
